@@ -20,7 +20,7 @@
 #define NR 60
 #define NC 25
 static const int SHAPES[6][2] = {{6, 3}, {10, 4}, {8, 8}, {5, 12}, {30, 6}, {60, 25}};
-static const double RATIOS[3] = {0.3, 0.6, 0.85}, SPREADS[3] = {0.02, 1.0, 100.0};
+static const double RATIOS[4] = {0.3, 0.6, 0.85, 0.01}, SPREADS[3] = {0.02, 1.0, 100.0};   /* 0.01: wide dynamic range, trailing eigenvalues tiny in absolute units */
 static const double OFFS[4] = {1.0, -7.5, 2.5, 40.0};
 
 /* E0 (n x p, row-major): exactly column-centred, singular values s[0..m-1], m = min(n-1,p) */
@@ -64,7 +64,7 @@ static void free_fit(struct fit *f) { DelPCAModel(&f->mod); DelMatrix(&f->mx); i
 static void body(void) {
   int sh = vx_choose("shape", vx_thorough() ? 6 : 5);
   int n = SHAPES[sh][0], p = SHAPES[sh][1];
-  int cfg = vx_choose("ratio*spread", 9);
+  int cfg = vx_choose("ratio*spread", 12);
   double ratio = RATIOS[cfg / 3], spread = SPREADS[cfg % 3];
   int scaling = vx_choose("scaling+1", 7) - 1;
   int mode = vx_choose("mode", 4);           /* 0 spectral correctness | 1 row permutation | 2 column permutation | 3 rotation */
@@ -200,7 +200,7 @@ static void body(void) {
 
 int main(int argc, char **argv) {
   vg_seed(getenv("VERIF_SEED") ? atol(getenv("VERIF_SEED")) : 0);
-  vx_describe("alphabet", "X = U diag(s) V' + offsets, U'1=0, s_i = ratio^i, ratio in {.3,.6,.85}; overall scale so that the smallest column SD is in {0.02,1,100}; shapes {(6,3),(10,4),(8,8),(5,12),(30,6)} [+(60,25)]; scaling -1..5; 2 [4] instances; offsets {none, (1,-7.5,2.5,40) cyclic}; npc 1..3; nproc {1,3}; transformations: ALL row permutations for n<=6 (720 / 120), cyclic shifts + reversal otherwise; ALL column permutations for p<=5, cyclic + reversal otherwise; 6 Householder-product rotations (scaling -1, 0)");
+  vx_describe("alphabet", "X = U diag(s) V' + offsets, U'1=0, s_i = ratio^i, ratio in {.3,.6,.85,.01}; overall scale so that the smallest column SD is in {0.02,1,100}; shapes {(6,3),(10,4),(8,8),(5,12),(30,6)} [+(60,25)]; scaling -1..5; 2 [4] instances; offsets {none, (1,-7.5,2.5,40) cyclic}; npc 1..3; nproc {1,3}; transformations: ALL row permutations for n<=6 (720 / 120), cyclic shifts + reversal otherwise; ALL column permutations for p<=5, cyclic + reversal otherwise; 6 Householder-product rotations (scaling -1, 0)");
   vx_describe("oracle", "reference = cyclic Jacobi (long double) on the Gram matrix of the library's preprocessed data; component k judged iff lambda_{j+1}/lambda_j <= 0.9 for all j<=k; sin angle(p_k,v_k) <= 5k*delta/(1-r)^2 + 1e3*eps*(n+p)*sigma_1/sigma_k, delta=sqrt(n*1e-10); scores within sigma_1*allowance; varexp within 100*(4 a s1 sk + a^2 s1^2 + 2 delta lambda_k)/trace; equivariance: twice the allowance, one sign per component shared by loadings and scores");
   vx_set_shard_depth(3);
   vx_expect_outcomes(40);   /* low on purpose: a library that returns the same (e.g. all-zero) model for every input of a shape must surface as violations, not as a vacuity error */
